@@ -26,7 +26,7 @@ def write_readme():
             "# Seeded changes (written by independent sub-agents from the property text alone)\n\n"
             "Each directory: patch.diff (apply with `git -C /repo apply`, or let tools/try_mutant.py apply it in a scratch worktree), "
             "demo.py (exits 1 with the change, 0 without; run with cwd = repository root and PYTHONPATH=<root>/src:<root>), notes.md (the author's notes), meta.json.\n"
-            "Re-run everything with tools/sweep_seeded.py (quick tier). Letters A-B: round 1 (two per property), C-E: round 2 (three per property), F-H: round 3 (three per property).\n\n"
+            "Re-run everything with tools/sweep_seeded.py (quick tier). Letters A-B: round 1 (two per property), C-E: round 2 (three per property), F-H: round 3 (three per property), I-J: round 4 (two each for C01, C04, C05, C08, C12-C15).\n\n"
             "| id | breaks | what | needs to manifest | confirmed | caught by (quick tier) |\n|---|---|---|---|---|---|\n"
         )
         for m in rows:
